@@ -5,22 +5,29 @@
     same symbolic description (its own table of what each compass method takes), feeds the real
     VerifyAgainstTX / attestRouter / CheckAndProcessAttestedMessages, and records what they did. *)
 From Coq Require Import List ZArith Bool.
-From Paloma Require Import Base.Corr Cons.Quorum Evm.Attest Evm.AttestSym Evm.AttestEvidence.
+From Paloma Require Import Base.Corr Cons.Quorum Evm.Attest Evm.AttestSym Evm.AttestEvidence Evm.UserDeployments.
 Import ListNotations.
 Open Scope Z_scope.
 
 (** transaction = (hash id, call data) *)
 Definition tx := (Z * calldata)%type.
 
-(** the other stores, as far as verification reads them: stored snapshots already projected to
-    this chain's compass valset, and whether a compass contract is known *)
-Definition wstate := (list (Z * valset) * bool)%type.
+(** the other stores, as far as verification and the modelled follow-ups read and write them:
+    stored snapshots already projected to this chain's compass valset, whether a compass contract
+    is known, the deployment records of the user contracts, the current block height *)
+Definition wstate := ((list (Z * valset) * bool) * (list urec * Z))%type.
+Definition wsnaps (w : wstate) : list (Z * valset) := fst (fst w).
+Definition wcompass (w : wstate) : bool := snd (fst w).
+Definition wurecs (w : wstate) : list urec := fst (snd w).
+Definition wheight (w : wstate) : Z := snd (snd w).
+Definition set_urecs (w : wstate) (l : list urec) : wstate := (fst w, (l, wheight w)).
+Definition set_height (h : Z) (w : wstate) : wstate := (fst w, (wurecs w, h)).
 Fixpoint vs_lookup (id : Z) (l : list (Z * valset)) : valset :=
   match l with
   | [] => empty_valset
   | (k, v) :: r => if k =? id then v else vs_lookup id r
   end.
-Definition valset_at (w : wstate) (id : Z) : valset := if id =? 0 then empty_valset else vs_lookup id (fst w).
+Definition valset_at (w : wstate) (id : Z) : valset := if id =? 0 then empty_valset else vs_lookup id (wsnaps w).
 
 (** what the action's follow-up did, as observed: None = it failed, Some l = it succeeded and
     enqueued the messages l *)
@@ -33,24 +40,50 @@ Definition cwinner := @winner tx.
 (** the follow-up of an accepted transaction: for submit_logic_call (nothing follows) and
     update_valset (SetSnapshotOnChain's error is only logged, older updates are pruned) it cannot
     fail and queues nothing -- PREDICTED; for the deployments and the handover it is the observed input *)
+(** body fields the harness files for the follow-ups: 100 the store key (contract id, user contract
+    id, new valset id), 102 UploadUserSmartContract.BlockHeight, 103 Retries, 104 the chain (0 = the
+    history's first chain) *)
+Definition bfield (b : body) (i : Z) : Z := hd 0 (lookup i (b_vals b)).
+
 Definition apply_effect (e : envt) (m : cmsg) (t : tx) (w : wstate) : option (wstate * list body) :=
-  match b_kind (m_body _ _ _ m) with
+  let b := m_body _ _ _ m in
+  match b_kind b with
   | KSubmitLogicCall | KUpdateValset => Some (w, [])
+  | KUploadUser =>
+    (* SetUserSmartContractDeploymentActive: the record of THIS message (contract id, chain, the
+       height at which its deployment was put in flight) becomes ACTIVE; no such record: error *)
+    match e with
+    | None => None
+    | Some l =>
+      match finish (wurecs w) (bfield b 100) (bfield b 104) (bfield b 102) 1 (wheight w) with
+      | Some recs => Some (set_urecs w recs, l)
+      | None => None
+      end
+    end
   | _ => match e with None => None | Some l => Some (w, l) end
   end.
 (** the follow-up of an error proof: update_valset and the handover only emit an event -- PREDICTED;
-    the three retrying actions queue what the harness saw appear (at most the retry) *)
+    a user contract upload beyond the retry limit marks its own record ERROR (a failure to find it
+    is only logged); the retrying actions queue what the harness saw appear (at most the retry) *)
 Definition on_error_proof (e : envt) (m : cmsg) (w : wstate) : wstate * list body :=
-  match b_kind (m_body _ _ _ m) with
+  let b := m_body _ _ _ m in
+  match b_kind b with
   | KUpdateValset | KHandover => (w, [])
+  | KUploadUser =>
+    if 2 <=? bfield b 103 then
+      (match finish (wurecs w) (bfield b 100) (bfield b 104) (bfield b 102) 2 (wheight w) with
+       | Some recs => set_urecs w recs
+       | None => w
+       end, [])
+    else (w, match e with None => [] | Some l => l end)
   | _ => (w, match e with None => [] | Some l => l end)
   end.
 
 Definition c_verify := verify body sigd valset calldata tx b_kind b_fees_present expected_calldata expected_deploy calldata_eqb.
-Definition c_step := step body sigd valset calldata Z tx wstate envt b_kind b_fees_present expected_calldata expected_deploy
-  calldata_eqb Z.eqb fst snd valset_at snd apply_effect on_error_proof.
-Definition c_attest := attest body sigd valset calldata Z tx wstate envt b_kind b_fees_present expected_calldata expected_deploy
-  calldata_eqb Z.eqb fst snd valset_at snd apply_effect on_error_proof.
+Definition c_step := step body sigd valset calldata Z tx wstate envt b_kind code_guards b_fees_present expected_calldata expected_deploy
+  calldata_eqb Z.eqb fst snd valset_at wcompass apply_effect on_error_proof.
+Definition c_attest := attest body sigd valset calldata Z tx wstate envt b_kind code_guards b_fees_present expected_calldata expected_deploy
+  calldata_eqb Z.eqb fst snd valset_at wcompass apply_effect on_error_proof.
 
 (* ---------- second round: the validators' reports and the election of the winner ---------- *)
 
@@ -76,13 +109,13 @@ Definition c_enc (p : payload tx) : Z :=
 Definition cstate := @rstate body sigd valset Z tx wstate.
 Definition crop := @rop body sigd tx wstate envt ckey.
 Definition c_rstep (sn : snapshot) : cstate -> crop -> cstate :=
-  rstep body sigd valset calldata Z tx wstate envt b_kind b_fees_present expected_calldata expected_deploy
-    calldata_eqb Z.eqb fst snd valset_at snd apply_effect on_error_proof ckeqb chash c_enc (fun _ => sn).
+  rstep body sigd valset calldata Z tx wstate envt b_kind code_guards b_fees_present expected_calldata expected_deploy
+    calldata_eqb Z.eqb fst snd valset_at wcompass apply_effect on_error_proof ckeqb chash c_enc (fun _ => sn).
 Definition c_elected (sn : snapshot) : cstate -> Z -> (list (@group ckey) -> list (@group ckey)) -> option cwinner :=
   elected body sigd valset Z tx wstate ckeqb chash c_enc (fun _ => sn).
 Definition c_rendblock (sn : snapshot) : cstate -> (Z -> envt) -> (Z -> list (@group ckey) -> list (@group ckey)) -> cstate :=
-  rendblock body sigd valset calldata Z tx wstate envt b_kind b_fees_present expected_calldata expected_deploy
-    calldata_eqb Z.eqb fst snd valset_at snd apply_effect on_error_proof ckeqb chash c_enc (fun _ => sn).
+  rendblock body sigd valset calldata Z tx wstate envt b_kind code_guards b_fees_present expected_calldata expected_deploy
+    calldata_eqb Z.eqb fst snd valset_at wcompass apply_effect on_error_proof ckeqb chash c_enc (fun _ => sn).
 (** Go's map order: at most one group can hold 2/3 (C04 winner_unique), any order will do *)
 Definition c_ord (gs : list (@group ckey)) : list (@group ckey) := gs.
 
@@ -115,6 +148,9 @@ Inductive cop :=
 | XRemoveMany (ids : list Z)             (* pruning by the consensus end-blocker *)
 | XSkip (k : Z)                          (* k ids of the shared counter went to other queues *)
 | XCompass (present : bool)
+| XHeight (h : Z)                                   (* the block height moved *)
+| XUserDeploy (cid chain : Z)                       (* CreateUserSmartContractDeployment succeeded *)
+| XUserSync (recs : list (Z * Z * Z * Z * Z))       (* an end-blocker purged stale user contracts: the records as they are now *)
 | XAttest (id : Z) (spawned : option (list (Z * Z * list (Z * val))))
 | XEndBlock (spawned : list (Z * option (list (Z * Z * list (Z * val))))).
 
@@ -130,10 +166,12 @@ Record obs := {
   o_queue : list Z;          (* ids in the turnstone queue, ascending *)
   o_processed : list Z;      (* hash ids of the transactions of this history that are marked processed, ascending *)
   o_relay : list (Z * bool); (* metrix records (message id, success), by message id *)
-  o_effects : list (Z * Z)   (* committed success follow-ups seen in the stores: (kind, key), sorted *)
+  o_effects : list (Z * Z);  (* committed success follow-ups seen in the stores: (kind, key), sorted *)
+  o_urecs : list (Z * Z * Z * Z * Z) (* user contract deployment records (contract, chain, created, updated, status), by contract *)
 }.
-Definition mk_obs (t : Z * list Z * list Z * list (Z * bool) * list (Z * Z)) : obs :=
-  let '(r, q, p, l, e) := t in {| o_res := r; o_queue := q; o_processed := p; o_relay := l; o_effects := e |}.
+Definition obs_t := (Z * list Z * list Z * list (Z * bool) * list (Z * Z) * list (Z * Z * Z * Z * Z))%type.
+Definition mk_obs (t : obs_t) : obs :=
+  let '(r, q, p, l, e, u) := t in {| o_res := r; o_queue := q; o_processed := p; o_relay := l; o_effects := e; o_urecs := u |}.
 
 Definition env_of (o : option (list (Z * Z * list (Z * val)))) : envt := option_map (map mk_body) o.
 Fixpoint env_lookup (l : list (Z * option (list (Z * Z * list (Z * val))))) (id : Z) : envt :=
@@ -142,7 +180,9 @@ Fixpoint env_lookup (l : list (Z * option (list (Z * Z * list (Z * val))))) (id 
   | (k, e) :: r => if k =? id then env_of e else env_lookup r id
   end.
 
-Definition set_compass (b : bool) (w : wstate) : wstate := (fst w, b).
+Definition mk_urec (t : Z * Z * Z * Z * Z) : urec :=
+  let '(c, ch, cr, up, st) := t in {| u_cid := c; u_chain := ch; u_created := cr; u_updated := up; u_status := st |}.
+Definition set_compass (b : bool) (w : wstate) : wstate := ((wsnaps w, b), snd w).
 
 (** an id handed to another queue: the turnstone queue never shows it *)
 Fixpoint skip_ids (sn : snapshot) (s : cstate) (k : nat) : cstate :=
@@ -165,6 +205,9 @@ Definition apply_cop (sn : snapshot) (s : cstate) (o : cop) : cstate * Z :=
   | XRemoveMany l => (fold_left (fun s' id => c_rstep sn s' (RRemove id)) l s, 0)
   | XSkip k => (skip_ids sn s (Z.to_nat k), 0)
   | XCompass b => (c_rstep sn s (RWorld (set_compass b)), 0)
+  | XHeight h => (c_rstep sn s (RWorld (set_height h)), 0)
+  | XUserDeploy cid chain => (c_rstep sn s (RWorld (fun w => set_urecs w (create (wurecs w) cid chain (wheight w)))), 0)
+  | XUserSync recs => (c_rstep sn s (RWorld (fun w => set_urecs w (map mk_urec recs))), 0)
   | XAttest id e =>
     (* = c_rstep sn s (RAttest id (env_of e) c_ord), keeping attestRouter's result *)
     let s1 := c_step (abs s) (OpEvidence _ _ _ _ _ id (c_elected sn s id c_ord)) in
@@ -211,12 +254,29 @@ Definition kind_z (k : kind) : Z :=
   match k with KUploadCompass => 0 | KUploadUser => 1 | KUpdateValset => 2 | KSubmitLogicCall => 3 | KHandover => 4 end.
 Definition effect_key (w : wstate) (e : effect body sigd valset tx) : list (Z * Z) :=
   let b := m_body _ _ _ (e_msg _ _ _ _ e) in
-  let key := hd 0 (lookup 100 (b_vals b)) in
+  let key := bfield b 100 + 1000 * bfield b 104 in
   match b_kind b with
   | KSubmitLogicCall => []
   | KUpdateValset => (* SetSnapshotOnChain on an unknown snapshot fails and is only logged *)
-    if existsb (fun p => fst p =? key) (fst w) then [(2, key)] else []
+    if existsb (fun p => fst p =? bfield b 100) (wsnaps w) then [(2, key)] else []
   | k => [(kind_z k, key)]
+  end.
+
+(** the user deployment records, by contract id (stable: per contract in order of creation) *)
+Fixpoint insert_u (x : urec) (l : list urec) : list urec :=
+  match l with
+  | [] => [x]
+  | y :: r => if u_cid x <? u_cid y then x :: l else y :: insert_u x r
+  end.
+Definition sort_u (l : list urec) : list urec := fold_left (fun acc x => insert_u x acc) l [].
+Definition urec_eqb (a : urec) (b : Z * Z * Z * Z * Z) : bool :=
+  let '(c, ch, cr, up, st) := b in
+  (u_cid a =? c) && (u_chain a =? ch) && (u_created a =? cr) && (u_updated a =? up) && (u_status a =? st).
+Fixpoint urecs_eqb (l : list urec) (o : list (Z * Z * Z * Z * Z)) : bool :=
+  match l, o with
+  | [], [] => true
+  | a :: r, b :: t => urec_eqb a b && urecs_eqb r t
+  | _, _ => false
   end.
 
 Definition bool_eqb (a b : bool) : bool := if a then b else negb b.
@@ -229,16 +289,17 @@ Definition obs_ok (rs : cstate) (r : Z) (o : obs) : bool :=
   && list_eqb Z.eqb (map (m_id _ _ _) (queue _ _ _ _ _ _ s)) (o_queue o)
   && list_eqb Z.eqb (dedup_sorted (sort_z (processed _ _ _ _ _ _ s))) (o_processed o)
   && list_eqb relay_eqb (sort_r (relay_log _ _ _ _ _ _ s)) (o_relay o)
-  && list_eqb zz_eqb (sort_p (flat_map (effect_key (world _ _ _ _ _ _ s)) (effects _ _ _ _ _ _ s))) (o_effects o).
+  && list_eqb zz_eqb (sort_p (flat_map (effect_key (world _ _ _ _ _ _ s)) (effects _ _ _ _ _ _ s))) (o_effects o)
+  && urecs_eqb (sort_u (wurecs (world _ _ _ _ _ _ s))) (o_urecs o).
 
-Fixpoint run_steps (sn : snapshot) (s : cstate) (l : list (cop * (Z * list Z * list Z * list (Z * bool) * list (Z * Z)))) : bool :=
+Fixpoint run_steps (sn : snapshot) (s : cstate) (l : list (cop * obs_t)) : bool :=
   match l with
   | [] => true
   | (o, ob) :: r => let '(s', res) := apply_cop sn s o in obs_ok s' res (mk_obs ob) && run_steps sn s' r
   end.
 
 Definition c_init (snaps : list (Z * valset)) (n0 : Z) : cstate :=
-  rinit body sigd valset Z tx wstate (snaps, true) n0.
+  rinit body sigd valset Z tx wstate ((snaps, true), ([], 0)) n0.
 Definition mk_snapshot (shares : list (Z * Z)) (total : Z) : snapshot := {| sn_vals := shares; sn_total := total |}.
 
 Inductive case :=
@@ -247,7 +308,7 @@ Inductive case :=
 (** a history on the real keepers: stored snapshots (projected), first message id, the current
     snapshot's (validator id, share) list and recorded total, steps *)
 | CHistory (snaps : list (Z * valset)) (n0 : Z) (shares : list (Z * Z)) (total : Z)
-           (steps : list (cop * (Z * list Z * list Z * list (Z * bool) * list (Z * Z)))).
+           (steps : list (cop * obs_t)).
 
 Definition check (c : case) : bool :=
   match c with
@@ -263,7 +324,7 @@ Definition check (c : case) : bool :=
 
 (** debugging aid: index of the first step whose observation differs, with the five component
     verdicts (result, queue, processed, relay, effects) and the model's own values *)
-Fixpoint first_bad (sn : snapshot) (rs : cstate) (l : list (cop * (Z * list Z * list Z * list (Z * bool) * list (Z * Z)))) (i : Z) :=
+Fixpoint first_bad (sn : snapshot) (rs : cstate) (l : list (cop * obs_t)) (i : Z) :=
   match l with
   | [] => None
   | (o, ob) :: r =>
@@ -272,7 +333,8 @@ Fixpoint first_bad (sn : snapshot) (rs : cstate) (l : list (cop * (Z * list Z * 
     let ob' := mk_obs ob in
     if obs_ok rs' res ob' then first_bad sn rs' r (i + 1)
     else Some (i, res, map (m_id _ _ _) (queue _ _ _ _ _ _ s'), dedup_sorted (sort_z (processed _ _ _ _ _ _ s')),
-               sort_r (relay_log _ _ _ _ _ _ s'), sort_p (flat_map (effect_key (world _ _ _ _ _ _ s')) (effects _ _ _ _ _ _ s')))
+               sort_r (relay_log _ _ _ _ _ _ s'), sort_p (flat_map (effect_key (world _ _ _ _ _ _ s')) (effects _ _ _ _ _ _ s')),
+               sort_u (wurecs (world _ _ _ _ _ _ s')))
   end.
 Definition diagnose (c : case) :=
   match c with
